@@ -6,8 +6,8 @@ ROOT = os.path.dirname(os.path.abspath(__file__))
 CHECKS = {
  "C01": dict(
    technique="runtime monitoring: seeded op-histories against the real store, shadow reference model (full-scan reverse lookups) compared after every operation + invariant checker over a hooked read-only dump of all reverse indices, id maps and position indices",
-   text="Thousands of short seeded histories of all mutating operations (nine selector kinds, four offset alignments, relative offsets, range-compressed complex selectors, strict/non-strict removals, protect_text) are applied to the real store; after every operation every lookup named in the property is compared with a documentation-derived shadow model that answers by full scan, and the hooked dump is checked for stale/missing/duplicate/unsorted index entries. Held only on the histories observed.",
-   note="Trusted: harness/src/model.rs (written from the documentation), the dump hook (read-only, add-only). Not generated: requests whose outcome the documentation leaves open, an annotation naming the same item twice, DataKey/AnnotationData selectors inside complex selectors.",
+   text="Thousands of short seeded histories of all mutating operations (nine selector kinds, four offset alignments, relative offsets, range-compressed complex selectors, strict/non-strict removals, protect_text) are applied to the real store; after every operation every lookup named in the property is compared with a documentation-derived shadow model that answers by full scan, and the hooked dump is checked for stale/missing/duplicate/unsorted index entries; at the end of every history 15 adaptors on iterators of items (annotations().data(), data().annotations(), keys().annotations(), resources().textselections(), ...) are compared with the merged per-item answers (documented order, no duplicates). Held only on the histories observed.",
+   note="Trusted: harness/src/model.rs (written from the documentation), the dump hook (read-only, add-only). Not generated: requests whose outcome the documentation leaves open, an annotation naming the same item twice.",
    ref="5/C01"),
  "C02": dict(
    technique="runtime monitoring: removal-biased seeded histories (by id, by handle, via DELETE queries; strict/non-strict) with return-value oracle, shadow-model cascade (least fixed point) vs full observation and hooked index dump after every removal, plus serialise/query-everything smoke oracles",
